@@ -52,6 +52,22 @@ def norm_pred(node):
     return None
 
 
+def on_equalities(tree):
+    """column = column conjuncts of the ON clauses of a statement, as sets of (table reference, column), lower case"""
+    out = []
+    for j, _ in reflect.walk(tree, want=lambda o: isinstance(o, A.Join)):
+        for cj in conjuncts(j.condition):
+            if isinstance(cj, A.BinaryOperation) and cj.op == '=' and all(isinstance(x, A.Identifier) and len(x.parts) >= 2 for x in cj.args):
+                out.append(frozenset((str(x.parts[-2]).lower(), str(x.parts[-1]).lower()) for x in cj.args))
+    return out
+
+
+# statements planned in the same process just before the judged one (process-level planner state must not leak into a plan)
+PRELUDES = [None,
+            ['SELECT * FROM int1.t1 JOIN int2.t2 ON t1.id = t2.id JOIN int1.t3 ON t3.id = t2.id',
+             'SELECT * FROM int2.t2 JOIN int1.t1 ON t1.id = t2.id JOIN mindsdb.pred WHERE pred.p1 = 7 USING partition_size = 5']]
+
+
 class CHECK(Check):
     pid = 'C14'
     level = 'exploration'
@@ -66,7 +82,7 @@ class CHECK(Check):
         d = 3 if self.tier == 'thorough' else 2
         out = []
         for a in qgen.assignments(predq.FEATURES, d, full_products=[('shape', 'where'), ('shape', 'using'), ('where', 'alias'), ('shape', 'catalog'), ('where', 'catalog'),
-                                                                      ('shape', 'alias', 'using')]):
+                                                                      ('shape', 'alias', 'using'), ('shape', 'where', 'catalog')]):
             if predq.build(a) is not None:
                 out.append(tuple(a[n] for n in predq.FEATURES))
         return out
@@ -94,9 +110,15 @@ class CHECK(Check):
         elif isinstance(st, S.ApplyPredictorStep):
             out = self.feed(st.dataframe, by_num, memo) | {str(st.predictor.parts[0]) if not str(st.predictor.parts[-1]).isdigit() else str(st.predictor.parts[-2])}
         elif isinstance(st, S.MapReduceStep):
+            # the container yields what its sub-steps compute from the partitions of `values`: the data plus every model applied inside
             out = self.feed(st.values, by_num, memo)
             for s in (st.step if isinstance(st.step, list) else [st.step]):
-                out |= self.feed(s.result if s.step_num is not None else st.values, by_num, memo) if False else set()
+                if isinstance(s, S.ApplyPredictorStep):
+                    out = out | {str(s.predictor.parts[0]) if not str(s.predictor.parts[-1]).isdigit() else str(s.predictor.parts[-2])}
+                elif isinstance(s, S.FetchDataframeStep):
+                    leaves = []
+                    table_leaves(s.query, leaves)
+                    out = out | {str(l.parts[-1]) for l in leaves}
         memo[n] = out
         return out
 
@@ -126,11 +148,23 @@ class CHECK(Check):
         return res
 
     def evaluate(self, a, res):
+        for prelude in PRELUDES:
+            self.evaluate_after(a, res, prelude)
+            if res.violations:
+                break
+        return res
+
+    def evaluate_after(self, a, res, prelude):
         q = predq.build(a)
         out = parsing.outcome(q['sql'], 'mindsdb')
         if out.kind != 'ok':
             res.count('not_parsed')
             return res
+        for text in prelude or ():
+            try:
+                plan_query(parsing.outcome(text, 'mindsdb').value, integrations=['int1', 'int2'], predictor_metadata=[dict(name='pred', integration_name='mindsdb')])
+            except Exception:
+                pass
         try:
             plan = plan_query(out.value, **copy.deepcopy(q['kwargs']))
         except (PlanningException, NotImplementedError) as e:
@@ -149,7 +183,7 @@ class CHECK(Check):
                 allsteps.extend(s.step if isinstance(s.step, list) else [s.step])
         by_num = {s.step_num: s for s in allsteps}
         applies = [s for s in allsteps if isinstance(s, S.ApplyPredictorStep)]
-        ctx = f'{q["sql"]!r} [{q["catalog"]}]\n    plan: {plan.steps}'
+        ctx = f'{q["sql"]!r} [{q["catalog"]}]' + (f' planned after {prelude!r}' if prelude else '') + f'\n    plan: {plan.steps}'
         # (1) one apply step per model, fed by the data it is joined to
         for m in q['models']:
             hits = [s for s in applies if m['name'] in [str(p) for p in s.predictor.parts]]
@@ -164,7 +198,7 @@ class CHECK(Check):
             rd = st.row_dict or {}
             exp = {c[3]: c[4] for c in q['conjuncts'] if c[0] == 'm' and c[1] == 'top' and c[2] == 'eq'} if m is q['models'][0] else {}
             judged = {k: v for k, v in exp.items()}
-            if q['catalog'] == 'to_predict':
+            if q['catalog'] in ('to_predict', 'to_predict_first_only'):
                 judged.pop('p1', None)
                 rd_j = {k: v for k, v in rd.items() if k != 'p1'}
             else:
@@ -182,6 +216,8 @@ class CHECK(Check):
             # (5) params
             expp = q['using']
             got = st.params
+            if predq.USINGS[a['using']][0] == 'per_model_options':
+                expp = {'x': 1} if m['name'] == 'pred' else {'x': 2}
             if m['name'] == 'pred2' and a['using'] and predq.USINGS[a['using']][0] in ('alias_prefixed', 'alias_prefixed_dotted'):
                 expp = None
             ok = (got == expp) or (not expp and not got)
@@ -220,13 +256,28 @@ class CHECK(Check):
             for cj in conjuncts(st.query.where):
                 np_ = norm_pred(cj)
                 if np_ is not None and np_[0] == 'semi-join':
-                    res.count('semi_join_filters_not_judged')
+                    # `col IN <result n>` is a restriction derived from a join condition: the statement must equate this table's col
+                    # with a column of a data table, and result n must be computed from (only) that side of the join so far
+                    res.count('semi_join_filters_judged')
+                    param = cj.args[1] if isinstance(cj.args[1], A.Parameter) else cj.args[0]
+                    fed = self.feed(param.value, by_num)
+                    ref_of = {t['name']: str(t['ref']).lower() for t in q['tables']}
+                    name_of = {v: k for k, v in ref_of.items()}
+                    me = (ref_of.get(tname, tname), np_[1].lower())
+                    partners = set()
+                    for eq in on_equalities(out.value):
+                        if me in eq and len(eq) == 2:
+                            (u, d), = eq - {me}
+                            partners.add(name_of.get(u, '?' + u))
+                    if not partners or not (fed and fed <= {n for n in ref_of} and fed & partners):
+                        res.violation(f'semi-join-filter-without-join-condition|{q["shape"]}',
+                                      f'fetch of {tname} is restricted by {str(cj)!r} (data of {sorted(fed)}); the statement equates {me[0]}.{me[1]} with columns of {sorted(partners) or "no data table"}; {ctx}')
                     continue
                 if np_ is None or np_ not in allowed.get(tname, set()):
                     res.violation(f'pushed-filter-is-not-a-top-level-conjunct|{sig_tail}', f'fetch of {tname} has WHERE conjunct {str(cj)!r}, allowed {sorted(map(str, allowed.get(tname, ())))}; {ctx}')
         # outer query must not keep consumed model conditions
         consumed = {c[3] for c in q['conjuncts'] if c[0] == 'm' and c[1] == 'top' and c[2] == 'eq'}
-        if q['catalog'] == 'to_predict':
+        if q['catalog'] in ('to_predict', 'to_predict_first_only'):
             consumed.discard('p1')
         for st in top:
             if isinstance(st, S.QueryStep) and st.query is not None and st.query.where is not None:
@@ -239,7 +290,7 @@ class CHECK(Check):
     def coverage(self, agg):
         return {'exhaustive': True, 'features': {n: [o[0] if isinstance(o, tuple) else o for o in opts] for n, opts in predq.FEATURES.items()},
                 'rule': 'all assignments with <= d non-default features (quick 2, thorough 3) + full products shape x where, shape x using, where x alias, '
-                        'shape x catalog, where x catalog, shape x alias x using; distinct_nontrivial = distinct (SQL, catalog)'}
+                        'shape x catalog, where x catalog, shape x alias x using, shape x where x catalog; every statement also planned after two other statements of the same process; semi-join filters judged against the ON equalities; distinct_nontrivial = distinct (SQL, catalog)'}
 
     def describe_case(self, case):
         q = predq.build(dict(zip(predq.FEATURES, case)))
